@@ -50,3 +50,10 @@ claim("C07", "post-condition monitors on Geometry.to_crs / Geometry.segmented / 
       "order preserved, same-CRS returns the same object, no-CRS refuses; densification: no edge longer than the resolution, original vertices an in-order subsequence, added vertices on "
       "their edge (1e-9 relative), area and length unchanged; round trips bounded by 1e-6 m (1e-2 m with a datum shift). 11 geometry kinds, edges in 16 directions incl. on the axes.",
       _TB + " PROJ is shared between library and oracle (a PROJ bug is invisible); empty LineString/Polygon inputs are outside the statement's kinds and only counted.", "DESIGN.md 5/C07")
+
+claim("C19", "relation checker over seeded families of near-identical values (==, hash, pickle/copy, dask tokens); hook on the transformer cache judged with probe points; CRS histories compared with pristine subprocesses",
+      "A: all pairs/triples of 8-20-member families for the 10 value types (reflexive, symmetric, transitive, equal=>equal hash, unequal=>different token, clone=>equal+same token); "
+      "B: 8 construction routes x seeded EPSG pool pairwise equal where pyproj says the route is lossless; C: histories (construct/drop/gc/transformer/re-construct) whose every "
+      "str/hash/token is compared with per-route pristine interpreters, and every transformer handed out by the id-keyed cache is compared on probe points with one built by the oracle; "
+      "a construct-transform-drop churn exceeds any plausible cache bound. Known findings K1-K3 are classified by mechanism (known_findings.json).",
+      _TB + " pyproj decides losslessness of routes; PYTHONHASHSEED pinned.", "DESIGN.md 5/C19")
